@@ -32,6 +32,8 @@ package raft
 //@ threadlocal InstallSnapshotRequest InstallSnapshotResponse
 //@ threadlocal Raft.id Raft.address Raft.logger Raft.transport Raft.log Raft.stateStorage Raft.snapshotStorage Raft.fsm
 //@ threadlocal Raft.options.electionTimeout Raft.options.heartbeatInterval Raft.options.leaseDuration
+//@ threadlocal Operation.readIndex Operation.OperationType Operation.Bytes Operation.LogIndex Operation.LogTerm
+//@ threadlocal LogEntry.Index LogEntry.Term LogEntry.Data LogEntry.EntryType
 //@ threadlocal Raft.applyCond Raft.commitCond Raft.readOnlyCond Raft.electionCond Raft.snapshotCond
 
 // ===========================================================================================
@@ -120,16 +122,25 @@ package raft
 //@ inv [I3] Lfirst <= r.lastIncludedIndex
 //@ inv [I4] Lfirst <= r.lastApplied
 //@ inv [Iclk] r.lastContact <= now
-//@ inv [I6] r.configuration != nil && r.followers != nil
-//@ inv [I6b] forall id string :: id in r.followers ==> r.followers[id] != nil
+//@ inv [I6] r.state != Shutdown ==> r.configuration != nil && r.followers != nil
+//@ inv [I6b] r.followers != nil ==> forall id string :: id in r.followers ==> r.followers[id] != nil
 //@ inv [I7] persTerm == r.currentTerm && persVote == r.votedFor
+//@ inv [I13] r.state == Leader ==> forall fid string :: fid in r.followers ==> r.followers[fid].nextIndex <= Llast + 1
 //@ inv [I11] r.operationManager != nil && r.operationManager.leaderLease != nil
+//@ inv [I11b] r.operationManager.pendingReadOnly != nil && r.operationManager.pendingReplicated != nil
+//@ inv [I11c] forall o *Operation :: o in r.operationManager.pendingReadOnly ==> o != nil
 //@ inv [I12] r.log != nil && r.stateStorage != nil && r.snapshotStorage != nil && r.transport != nil && r.fsm != nil && r.logger != nil
 
 //@ guar [G1] r.currentTerm >= old(r.currentTerm)
 //@ guar [G2] r.currentTerm == old(r.currentTerm) && old(r.votedFor) != "" ==> r.votedFor == old(r.votedFor)
 //@ guar [G3] r.commitIndex >= old(r.commitIndex)
+//@ guar [G4] r.lastApplied >= old(r.lastApplied)
+//@ guar [Gqv] forall o *Operation :: old(allocated(o)) && old(o.quorumVerified) ==> o.quorumVerified
+//@ guar [Gsticky] (old(r.followers) != nil ==> r.followers != nil) && (old(r.configuration) != nil ==> r.configuration != nil)
 //@ guar [Gclk] now >= old(now)
+// GL (leader append-only): used as rely under assumption A-LEAD-ONCE (a node does not enter the
+// leader state twice in one term), without which it is not transitive.
+//@ guar [GL] old(r.state) == Leader && r.state == Leader && r.currentTerm == old(r.currentTerm) ==> Llast >= old(Llast)
 
 // ===========================================================================================
 // Elections: RequestVote handler (C02, C07, C08, C16)
@@ -160,6 +171,7 @@ package raft
 //@   let P = request.PrevLogIndex
 //@   let n = len(request.Entries)
 //@   let E = request.Entries
+//@   assume [A-ES] request.Term == r.currentTerm ==> r.state != Leader
 //@   assume [A-LM] forall j int :: 0 <= j && j < n && P+1+j <= r.commitIndex && P+1+j <= Llast ==> Lterm[P+1+j] == E[j].Term
 //@   ensures [AE.shutdown] old(r.state) == Shutdown ==> err != nil && Llast == old(Llast) && r.commitIndex == old(r.commitIndex) && r.currentTerm == old(r.currentTerm) && r.votedFor == old(r.votedFor)
 //@   ensures [AE.stale-term] err == nil && request.Term < old(r.currentTerm) ==> !response.Success && response.Term == old(r.currentTerm) && Llast == old(Llast) && r.commitIndex == old(r.commitIndex) && r.currentTerm == old(r.currentTerm) && r.votedFor == old(r.votedFor) && r.state == old(r.state) && r.lastContact == old(r.lastContact)
@@ -294,7 +306,22 @@ package raft
 // ===========================================================================================
 
 //@ func Raft.nextConfiguration
-//@   flags inline lockheld
+//@   flags lockheld
+//@   requires [next-nonnil] next != nil
+//@   requires [pre-nonnil] r.configuration != nil && r.followers != nil && r.operationManager != nil && r.operationManager.leaderLease != nil && r.logger != nil && r.operationManager.pendingReplicated != nil && r.operationManager.pendingReadOnly != nil
+//@   requires [pre-I11c] forall o *Operation :: o in r.operationManager.pendingReadOnly ==> o != nil
+//@   requires [pre-L] 0 <= Llast
+//@   requires [pre-I6b] forall fid string :: fid in r.followers ==> r.followers[fid] != nil
+//@   ensures [config] r.configuration == next
+//@   ensures [I6b] forall fid string :: fid in r.followers ==> r.followers[fid] != nil
+//@   ensures [state] r.state == old(r.state) || (old(r.state) == Leader && r.state == Follower)
+//@   ensures [stepdown-on-removal] !(r.id in next.Members) ==> r.state != Leader
+//@   ensures [I11] r.operationManager != nil && r.operationManager.leaderLease != nil && r.operationManager.pendingReplicated != nil && r.operationManager.pendingReadOnly != nil && (forall o *Operation :: o in r.operationManager.pendingReadOnly ==> o != nil)
+//@   ensures [answered-mono] forall c int :: old(answered[c]) ==> answered[c]
+//@   ensures [clock] now >= old(now)
+//@   ensures [nextIndex] old(forall fid string :: fid in r.followers ==> r.followers[fid].nextIndex <= Llast + 1) ==> forall fid string :: fid in r.followers ==> r.followers[fid].nextIndex <= Llast + 1
+//@   loop range r.configuration.Members invariant [nextIndex] old(forall fid string :: fid in r.followers ==> r.followers[fid].nextIndex <= Llast + 1) ==> forall fid string :: fid in r.followers ==> r.followers[fid].nextIndex <= Llast + 1
+//@   loop range next.Members invariant [nextIndex] old(forall fid string :: fid in r.followers ==> r.followers[fid].nextIndex <= Llast + 1) ==> forall fid string :: fid in r.followers ==> r.followers[fid].nextIndex <= Llast + 1
 //@   loop range r.configuration.Members invariant [I6b] forall fid string :: fid in r.followers ==> r.followers[fid] != nil
 //@   loop range next.Members invariant [I6b] forall fid string :: fid in r.followers ==> r.followers[fid] != nil
 
@@ -303,16 +330,18 @@ package raft
 // ===========================================================================================
 
 //@ func Raft.becomeFollower
-//@   flags inline lockheld
-//@   requires r.stateStorage != nil && r.operationManager != nil && r.followers != nil && r.logger != nil
-//@   requires forall id string :: id in r.followers ==> r.followers[id] != nil
-//@   requires term >= r.currentTerm
+//@   flags lockheld
+//@   requires [pre-nonnil] r.stateStorage != nil && r.operationManager != nil && r.followers != nil && r.logger != nil
+//@   requires [pre-I6b] forall id string :: id in r.followers ==> r.followers[id] != nil
+//@   requires [pre-term] term >= r.currentTerm
 //@   ensures [state] r.state == Follower && r.currentTerm == term && r.leaderID == leaderID
-//@   ensures [G2] term == old(r.currentTerm) && old(r.votedFor) != "" ==> r.votedFor == old(r.votedFor)
+//@   ensures [G2] term == old(r.currentTerm) ==> r.votedFor == old(r.votedFor)
 //@   ensures [vote-cleared] term > old(r.currentTerm) ==> r.votedFor == ""
 //@   ensures [I7] persTerm == r.currentTerm && persVote == r.votedFor
-//@   ensures [tables-empty] r.operationManager != nil && card(dom(r.operationManager.pendingReplicated)) == 0 && card(dom(r.operationManager.pendingReadOnly)) == 0
+//@   ensures [tables-empty] r.operationManager != nil && r.operationManager.leaderLease != nil && r.operationManager.pendingReplicated != nil && r.operationManager.pendingReadOnly != nil && (forall k uint64 :: !(k in r.operationManager.pendingReplicated)) && (forall o *Operation :: !(o in r.operationManager.pendingReadOnly))
+//@   ensures [lease-fresh] r.operationManager.leaderLease.expiration <= now && now >= old(now)
 //@   ensures [snapshot-reset] r.snapshot == nil
+//@   ensures [answered-mono] forall c int :: old(answered[c]) ==> answered[c]
 
 //@ func Raft.becomeCandidate
 //@   flags inline lockheld
@@ -335,6 +364,8 @@ package raft
 
 //@ func operationManager.notifyLostLeaderShip
 //@   flags inline
+//@   loop range r.pendingReadOnly invariant [answered-mono] forall c int :: old(answered[c]) ==> answered[c]
+//@   loop range r.pendingReplicated invariant [answered-mono] forall c int :: old(answered[c]) ==> answered[c]
 
 //@ spec singleMember(r) = len(r.configuration.Members) == 1 && r.configuration.IsVoter[r.id]
 
@@ -365,20 +396,27 @@ package raft
 //@   at call r.becomeLeader assert [becomeLeader.entry] !prevote && r.state == Candidate && request.Term == r.currentTerm && 2 * *votes > cntVoters(r.configuration)
 
 //@ func Raft.becomeLeader
-//@   flags inline lockheld
-//@   requires r.configuration != nil && r.followers != nil && r.log != nil && r.operationManager != nil && r.logger != nil
-//@   requires forall id string :: id in r.followers ==> r.followers[id] != nil
+//@   flags lockheld
+//@   requires [pre-nonnil] r.configuration != nil && r.followers != nil && r.log != nil && r.operationManager != nil && r.logger != nil
+//@   requires [pre-I6b] forall id string :: id in r.followers ==> r.followers[id] != nil
 //@   ensures [state] r.state == Leader && r.currentTerm == old(r.currentTerm) && r.votedFor == old(r.votedFor)
 //@   ensures [noop] Llast == old(Llast) + 1 && Lterm[Llast] == r.currentTerm && Ltyp[Llast] == NoOpEntry && forall i int :: i <= old(Llast) ==> Lterm[i] == old(Lterm[i]) && Ltyp[i] == old(Ltyp[i]) && Ldata[i] == old(Ldata[i])
-//@   ensures [reset] forall fid string :: fid in r.followers ==> r.followers[fid].matchIndex == 0
-//@   loop range r.followers invariant [reset] forall fid string :: fid in visited ==> r.followers[fid].matchIndex == 0
+//@   ensures [reset] forall fid string :: fid in r.followers ==> r.followers[fid].matchIndex == 0 && r.followers[fid].nextIndex <= Llast + 1
+//@   ensures [I11] r.operationManager != nil && r.operationManager.leaderLease != nil && r.operationManager.pendingReplicated != nil && r.operationManager.pendingReadOnly != nil && (forall o *Operation :: !(o in r.operationManager.pendingReadOnly))
+//@   ensures [lease-fresh] now >= old(now) && (!old(singleMember(r)) ==> r.operationManager.leaderLease.expiration <= now)
+//@   ensures [snapshot-reset] r.snapshot == nil
+//@   ensures [answered-mono] forall c int :: old(answered[c]) ==> answered[c]
+//@   ensures [qv-mono] forall o *Operation :: old(allocated(o)) && old(o.quorumVerified) ==> o.quorumVerified
+//@   loop range r.followers invariant [reset] Llast == old(Llast) && forall fid string :: fid in visited ==> r.followers[fid].matchIndex == 0 && r.followers[fid].nextIndex <= Llast + 1
 
 //@ func Raft.sendAppendEntriesToPeers
 //@   flags inline lockheld
+//@   at call r.tryApplyReadOnlyOperations assert [confirm-single] singleMember(r)
 //@ func Raft.tryApplyReadOnlyOperations
 //@   flags inline lockheld
 //@ func operationManager.markAsVerified
 //@   flags inline
+//@   loop range r.pendingReadOnly invariant [Gqv] forall o *Operation :: old(allocated(o)) && old(o.quorumVerified) ==> o.quorumVerified
 
 //@ func Raft.electionLoop
 
@@ -413,9 +451,133 @@ package raft
 //@ iface Transport.RegisterRequestVoteHandler(handler) ()
 //@ iface Transport.RegsiterInstallSnapshotHandler(handler) ()
 
-//@ func Configuration.Clone
-//@   flags inline
-
 //@ func Raft.restore
 //@   requires r.log != nil && r.stateStorage != nil && r.snapshotStorage != nil && r.transport != nil && r.fsm != nil
 //@   ensures [term-vote] err == nil ==> r.currentTerm == persTerm && r.votedFor == persVote
+
+// ===========================================================================================
+// Leader side: replication, commitment, leadership confirmation (C01, C04, C05, C09, C17)
+// ===========================================================================================
+
+//@ spec matchSet(r, index) = setof(fid string : fid != r.id && r.configuration.IsVoter[fid] && r.followers[fid].matchIndex >= index)
+
+//@ func Raft.commitLoop
+//@   at before-assign r.commitIndex assert [commit-rule] r.state == Leader && index > r.commitIndex && index <= Llast && Lterm[index] == r.currentTerm && matches == 1 + cnt(dom(r.followers), matchSet(r, index)) && 2*matches > cntVoters(r.configuration)
+//@   loop for index invariant [bounds] r.commitIndex < index && r.commitIndex >= old(r.commitIndex) && r.commitIndex <= Llast
+//@   loop range r.followers invariant [matches] matches == 1 + cnt(visited, matchSet(r, index))
+
+//@ func Raft.sendAppendEntries
+//@   flags splitexits
+//@   release s1 [leader-id] r.state == Leader && request.Term == r.currentTerm && request.LeaderID == r.id
+//@   release s1 [wf] WF(request) && request.LeaderCommit == r.commitIndex && r.lastIncludedIndex <= request.PrevLogIndex
+//@   release s1 [entries-verbatim] forall j int :: 0 <= j && j < len(request.Entries) ==> request.Entries[j].Term == Lterm[request.PrevLogIndex+1+j] && request.Entries[j].EntryType == Ltyp[request.PrevLogIndex+1+j] && request.Entries[j].Data == Ldata[request.PrevLogIndex+1+j]
+//@   release s1 [prev-term] request.PrevLogIndex <= Llast ==> (request.PrevLogIndex == r.lastIncludedIndex ==> request.PrevLogTerm == r.lastIncludedTerm) && (request.PrevLogIndex > r.lastIncludedIndex ==> request.PrevLogTerm == Lterm[request.PrevLogIndex])
+//@   at before-assign follower.nextIndex assume [A-HINT] !response.Success ==> newval <= Llast + 1
+//@   at before-assign follower.matchIndex assert [match-sound] response.Success && err == nil && r.state == Leader && r.currentTerm == request.Term && newval == request.PrevLogIndex + len(request.Entries)
+//@   at before-assign *numResponses assert [verify-voters] err == nil && r.state == Leader && r.currentTerm == request.Term && r.configuration.IsVoter[id]
+//@   at call r.tryApplyReadOnlyOperations assert [confirm-quorum] 2 * *numResponses > cntVoters(r.configuration)
+//@   loop for index invariant [entries] nextIndex > r.lastIncludedIndex ==> len(entries) == index - nextIndex && index <= Llast + 1 && forall j int :: 0 <= j && j < len(entries) ==> entries[j] != nil && entries[j].Index == nextIndex + j && entries[j].Term == Lterm[nextIndex+j] && entries[j].EntryType == Ltyp[nextIndex+j] && entries[j].Data == Ldata[nextIndex+j]
+
+//@ func Raft.sendInstallSnapshot
+//@   flags inline lockheld
+//@   at before-assign follower.nextIndex assume [A-SNAP-LABEL] newval <= Llast + 1
+
+// ===========================================================================================
+// Application of committed entries, read-only operations, lease (C01, C03, C05, C17)
+// ===========================================================================================
+
+//@ spec committedThisTermSpec(r) = (inLog(r.commitIndex) && Lterm[r.commitIndex] == r.currentTerm) || (!inLog(r.commitIndex) && r.lastIncludedTerm == r.currentTerm)
+
+//@ func Raft.committedThisTerm
+//@   flags lockheld
+//@   requires r.log != nil && r.logger != nil
+//@   ensures [spec] result == committedThisTermSpec(r)
+
+//@ func lease.renew
+//@   ensures [spec] l.expiration == now + l.duration && now >= old(now)
+//@ func lease.isValid
+//@   ensures [spec] result == (now < l.expiration) && now >= old(now)
+//@ func newLease
+//@   ensures [spec] result != nil && result.duration == duration && result.expiration == now && now >= old(now)
+
+//@ func operationManager.appliableReadOnlyOperations
+//@   flags fresh-result
+//@   ensures [nonnil] forall o *Operation :: o in r.pendingReadOnly ==> o != nil
+//@   requires r.pendingReadOnly != nil
+//@   requires forall o *Operation :: o in r.pendingReadOnly ==> o != nil
+//@   ensures [fresh] fresh(result)
+//@   ensures [spec] result != nil && forall o *Operation :: o in result ==> o != nil && allocated(o) && o.readIndex <= applyIndex && (o.OperationType == LinearizableReadOnly ==> o.quorumVerified) && (o.OperationType == LinearizableReadOnly || o.OperationType == LeaseBasedReadOnly)
+//@   ensures [removed] forall o *Operation :: o in result ==> !(o in r.pendingReadOnly)
+//@   loop range r.pendingReadOnly invariant [spec] forall o *Operation :: o in appliableOperations ==> o != nil && allocated(o) && o.readIndex <= applyIndex && (o.OperationType == LinearizableReadOnly ==> o.quorumVerified) && (o.OperationType == LinearizableReadOnly || o.OperationType == LeaseBasedReadOnly) && !(o in r.pendingReadOnly)
+//@   loop range r.pendingReadOnly invariant [nonnil] forall o *Operation :: o in r.pendingReadOnly ==> o != nil
+
+//@ func Raft.readOnlyLoop
+//@   at call r.operationManager.appliableReadOnlyOperations assert [batch-guard] r.state == Leader && committedThisTermSpec(r)
+//@   release s2 [serve] r.state == Leader && operation != nil && operation.readIndex <= r.lastApplied && (operation.OperationType == LinearizableReadOnly ==> operation.quorumVerified) && (operation.OperationType == LeaseBasedReadOnly ==> now < r.operationManager.leaderLease.expiration)
+//@   loop range appliableOperations invariant [batch] forall o *Operation :: o in appliableOperations ==> o != nil && allocated(o) && o.readIndex <= r.lastApplied && (o.OperationType == LinearizableReadOnly ==> o.quorumVerified) && (o.OperationType == LinearizableReadOnly || o.OperationType == LeaseBasedReadOnly)
+//@   loop range appliableOperations invariant [leader] r.state == Leader
+
+//@ func Raft.applyLoop
+//@   release s2 [order] operation.LogIndex == r.lastApplied + 1 && operation.LogIndex <= r.commitIndex && operation.LogTerm == Lterm[operation.LogIndex] && operation.Bytes == Ldata[operation.LogIndex] && Ltyp[operation.LogIndex] == OperationEntry && operation.OperationType == Replicated
+//@   at before-assign r.lastApplied assert [advance] newval == r.lastApplied + 1 && newval <= r.commitIndex
+//@   at call respond(responseCh, assert [answer] response.Operation.LogIndex == operation.LogIndex && response.Operation.LogTerm == operation.LogTerm && response.Operation.Bytes == operation.Bytes && err == nil
+
+//@ func Raft.applyConfiguration
+//@   flags inline lockheld
+//@ func Raft.decodeConfiguration
+//@   flags inline lockheld
+//@ func Raft.encodeConfiguration
+//@   flags inline lockheld
+
+// ===========================================================================================
+// Client API: submissions and membership changes (C03, C09, C18)
+// ===========================================================================================
+
+//@ spec pendingSpec(r) = r.committedConfiguration == nil || r.committedConfiguration.Index != r.configuration.Index
+//@ spec sameMaps(a, b) = (forall k string :: (k in a.Members) == (k in b.Members)) && (forall k string :: a.Members[k] == b.Members[k]) && (forall k string :: (k in a.IsVoter) == (k in b.IsVoter)) && (forall k string :: a.IsVoter[k] == b.IsVoter[k])
+
+//@ func newFuture
+//@   flags inline
+
+//@ func Configuration.Clone
+//@   requires c != nil
+//@   ensures [deep] result.Index == c.Index && result.Members != nil && result.IsVoter != nil && fresh(result.Members) && fresh(result.IsVoter) && result.Members != result.IsVoter
+//@   ensures [members] forall k string :: (k in result.Members) == (k in c.Members) && result.Members[k] == c.Members[k]
+//@   ensures [voters] forall k string :: (k in c.Members ==> (k in result.IsVoter) && result.IsVoter[k] == c.IsVoter[k]) && (!(k in c.Members) ==> !(k in result.IsVoter))
+//@   loop range c.Members invariant [members] forall k string :: (k in configuration.Members) == (k in visited) && (k in visited ==> configuration.Members[k] == c.Members[k])
+//@   loop range c.Members invariant [voters] forall k string :: (k in configuration.IsVoter) == (k in visited) && (k in visited ==> configuration.IsVoter[k] == c.IsVoter[k])
+//@   loop range c.Members invariant [fresh] configuration.Members != configuration.IsVoter && configuration.Members != c.Members && configuration.IsVoter != c.Members && configuration.Members != c.IsVoter && configuration.IsVoter != c.IsVoter && configuration.Index == c.Index
+
+//@ func Raft.appendConfiguration
+//@   flags lockheld
+//@   requires [pre-nonnil] configuration != nil && r.log != nil && r.transport != nil && r.logger != nil
+//@   ensures [frame] forall c *Configuration :: c != configuration ==> c.Index == old(c.Index)
+//@   ensures [entry] Llast == old(Llast) + 1 && configuration.Index == Llast && Lterm[Llast] == r.currentTerm && Ltyp[Llast] == ConfigurationEntry && forall i int :: i <= old(Llast) ==> Lterm[i] == old(Lterm[i]) && Ltyp[i] == old(Ltyp[i]) && Ldata[i] == old(Ldata[i])
+
+//@ func Raft.submitReplicatedOperation
+//@   ensures [register] old(r.state) == Leader ==> Llast == old(Llast) + 1 && Lterm[Llast] == r.currentTerm && Ldata[Llast] == operationBytes && Ltyp[Llast] == OperationEntry && r.operationManager.pendingReplicated[Llast] == operationFuture.responseCh && operationFuture.responseCh != nil
+//@   ensures [not-leader] old(r.state) != Leader ==> answered[operationFuture.responseCh] && Llast == old(Llast) && r.operationManager.pendingReplicated == old(r.operationManager.pendingReplicated)
+//@   ensures [log-frame] forall i int :: i <= old(Llast) ==> Lterm[i] == old(Lterm[i]) && Ltyp[i] == old(Ltyp[i]) && Ldata[i] == old(Ldata[i])
+
+//@ func Raft.submitReadOnlyOperation
+//@   ensures [not-leader] old(r.state) != Leader ==> answered[operationFuture.responseCh] && Llast == old(Llast)
+//@   at before-assign r.operationManager.pendingReadOnly[operation] assert [readIndex] r.state == Leader && operation != nil && operation.readIndex == r.commitIndex && !operation.quorumVerified && operation.OperationType == readOnlyType && newval == operationFuture.responseCh
+
+//@ func Raft.AddServer
+//@   at call r.appendConfiguration assert [guard] r.state == Leader && committedThisTermSpec(r) && !pendingSpec(r)
+//@   at call r.appendConfiguration assert [delta] (forall k string :: (k in configuration.Members) == (k in r.configuration.Members || k == id)) && (forall k string :: k != id && k in r.configuration.Members ==> configuration.Members[k] == r.configuration.Members[k] && configuration.IsVoter[k] == r.configuration.IsVoter[k]) && configuration.Members[id] == address && configuration.IsVoter[id] == isVoter
+//@   ensures [pending-after] Llast > old(Llast) && old(r.committedConfiguration == nil || r.committedConfiguration.Index <= Llast) ==> pendingSpec(r) && r.configuration.Index == Llast
+//@   ensures [answered-or-pending] Llast == old(Llast) ==> answered[configurationFuture.responseCh]
+
+//@ func Raft.RemoveServer
+//@   ensures [pending-after] Llast > old(Llast) && old(r.committedConfiguration == nil || r.committedConfiguration.Index <= Llast) ==> pendingSpec(r)
+//@   at call r.appendConfiguration assert [guard] r.state == Leader && committedThisTermSpec(r) && !pendingSpec(r)
+//@   at call r.appendConfiguration assert [delta] (forall k string :: (k in configuration.Members) == (k in r.configuration.Members && k != id)) && (forall k string :: k != id && k in r.configuration.Members ==> configuration.Members[k] == r.configuration.Members[k] && configuration.IsVoter[k] == r.configuration.IsVoter[k])
+//@   ensures [answered-or-pending] Llast == old(Llast) ==> answered[configurationFuture.responseCh]
+
+// Call-graph obligations: who may renew the lease / mark reads as verified.
+//@ callers lease.renew = Raft.tryApplyReadOnlyOperations
+//@ callers operationManager.markAsVerified = Raft.tryApplyReadOnlyOperations
+//@ callers Raft.tryApplyReadOnlyOperations = Raft.sendAppendEntries Raft.sendAppendEntriesToPeers
+//@ callers Raft.becomeLeader = Raft.sendRequestVote Raft.sendRequestVoteToPeers
+//@ callers Raft.becomeCandidate = Raft.election Raft.sendRequestVoteToPeers
